@@ -9,6 +9,7 @@ import (
 	"strconv"
 	"strings"
 	"sync"
+	"sync/atomic"
 	"time"
 
 	"github.com/b2broker/simplefix-go/session"
@@ -138,9 +139,13 @@ type cell struct {
 	probe  bool // real time: N=1 and 2.3 s of silence first, so that the session's own TestRequest is pending
 }
 
+var can *rig.Canary
+
 func main() {
 	c := vk.Init("C16")
-	c.Rule("matrix: admin type {Logon, Logout, Heartbeat, TestRequest, ResendRequest, a Logon naming other parties / interval / credentials} x damage {wrong checksum, wrong body length, non-numeric body field, non-numeric header field, wrong checksum/length + missing or non-numeric MsgSeqNum, undamaged but not permitted in the state, not permitted in the state and MsgSeqNum missing or non-numeric (correct framing), correct framing with a non-numeric or EMPTY MsgSeqNum value, an EMPTY numeric body field, a CheckSum value 256 above the right one, the right value without zero padding or with a sign, a header field in front of / behind MsgSeqNum that lost its '=' and a doubled delimiter in front of MsgSeqNum (framing left as it was, so the integrity check fails)} x session state {waiting, logged on, logged on with the session's own TestRequest pending (real time, N=1; timer Heartbeats/TestRequests are not counted as answers)} x role x position (after 0..3 valid messages) x follow-up valid traffic; plus, over a scripted connection while logged on, every admin type with a CheckSum field whose value is 0, 1, 2, 4 or 5 characters long followed by a valid TestRequest; in every sixth cell two application observers for the message type, registered before Session.Run, are removed in registration order before the invalid message arrives; tag 35 itself is never damaged. Oracle per offending step: exactly one message emitted and it is a Reject with 45 = the offending 34 (or 371 = 34 when 34 is missing/non-numeric); IsLogged unchanged; context not cancelled and handler still running; the following valid message has its normal effect (TestRequest answered when logged on, good Logon accepted when waiting). distinct = matrix cell x position x seqnum; non-trivial = all")
+	can = rig.StartCanary()
+	defer can.Stop()
+	c.Rule("matrix: admin type {Logon, Logout, Heartbeat, TestRequest, ResendRequest, a Logon naming other parties / interval / credentials} x damage {wrong checksum, wrong body length, non-numeric body field, non-numeric header field, wrong checksum/length + missing or non-numeric MsgSeqNum, undamaged but not permitted in the state, not permitted in the state and MsgSeqNum missing or non-numeric (correct framing), correct framing with a non-numeric or EMPTY MsgSeqNum value, an EMPTY numeric body field, a CheckSum value 256 above the right one, the right value without zero padding or with a sign, a header field in front of / behind MsgSeqNum that lost its '=' and a doubled delimiter in front of MsgSeqNum (framing left as it was, so the integrity check fails)} x session state {waiting, logged on, logged on with the session's own TestRequest pending (real time, N=1; timer Heartbeats/TestRequests are not counted as answers)} x role x position (after 0..3 valid messages) x follow-up valid traffic; plus, over a scripted connection while logged on, every admin type with a CheckSum field whose value is 0, 1, 2, 4 or 5 characters long followed by a valid TestRequest; in every seventh cell an earlier Reject of the session could not be sent because the counter store failed once (the judged message arrives after the store has recovered); in every sixth cell two application observers for the message type, registered before Session.Run, are removed in registration order before the invalid message arrives; tag 35 itself is never damaged. Oracle per offending step: exactly one message emitted and it is a Reject with 45 = the offending 34 (or 371 = 34 when 34 is missing/non-numeric); IsLogged unchanged; context not cancelled and handler still running; the following valid message has its normal effect (TestRequest answered when logged on, good Logon accepted when waiting). distinct = matrix cell x position x seqnum; non-trivial = all")
 	c.Assume("a message whose only defect is a missing sequence number is not in the statement's list; 'state-not-permitted' cells are: Heartbeat/TestRequest/ResendRequest/Logout while waiting, Logon while logged on")
 	reps := c.Pick(10, 120)
 	var cells []cell
@@ -274,7 +279,17 @@ func runCell(c *vk.Ctx, ce cell, i int) {
 			obs[1] = h.HandleIncoming(a.typ, func([]byte) bool { return true })
 		}
 	}
-	r, err := rig.NewStepRig(rig.StepCfg{Role: ce.role, HeartBtInt: hb, Limits: lim, SentinelBarrier: true, BeforeRun: beforeRun})
+	// in every seventh cell an earlier Reject of the session could not be sent because the application's counter store
+	// failed once (the error is reported to the application); the store works again when the judged message arrives
+	afterSendError := i%7 == 3
+	scfg := rig.StepCfg{Role: ce.role, HeartBtInt: hb, Limits: lim, SentinelBarrier: true, BeforeRun: beforeRun}
+	var flaky *rig.FlakyStore
+	if afterSendError {
+		desc += " [after a send of the session failed on a transient counter-store fault]"
+		flaky = rig.NewFlakyStore()
+		scfg.Counter, scfg.Messages = flaky, flaky
+	}
+	r, err := rig.NewStepRig(scfg)
 	if err != nil {
 		c.Inconclusive("rig: " + err.Error())
 		return
@@ -339,6 +354,17 @@ func runCell(c *vk.Ctx, ce cell, i int) {
 			return
 		}
 	}
+	if afterSendError {
+		atomic.StoreInt32(&flaky.FailNextOutgoingNumber, 1)
+		res := r.Inbound(rig.BadChecksum(p.Heartbeat())) // its Reject cannot be numbered: nothing is sent
+		if res.TimedOut {
+			c.Inconclusive("watchdog: " + desc)
+			return
+		}
+		if atomic.LoadInt32(&flaky.Faults) == 1 {
+			c.Count("cells_after_a_failed_send", 1)
+		}
+	}
 	if withObservers {
 		_ = r.H.RemoveIncomingHandler(a.typ, obs[0])
 		_ = r.H.RemoveIncomingHandler(a.typ, obs[1])
@@ -357,9 +383,20 @@ func runCell(c *vk.Ctx, ce cell, i int) {
 		// session's own TestRequest is unanswered, which is not what this property is about
 		before = true
 	}
+	tStep := time.Now()
 	res := r.Inbound(msg)
 	if res.TimedOut {
-		c.Inconclusive("watchdog: " + desc)
+		if jit := can.MaxBetween(tStep, time.Now()); jit > 100*time.Millisecond {
+			c.Inconclusive(fmt.Sprintf("watchdog (scheduler oversleep %v): %s", jit, desc))
+			return
+		}
+		// a step that takes microseconds has not finished after 5 s on a machine whose scheduler was on time: the
+		// handler loop is stuck in serving the invalid message — no Reject, and nothing that follows is processed
+		st := "waiting"
+		if ce.logged {
+			st = "logged"
+		}
+		c.Violate(fmt.Sprintf("C16/invalid-message-never-finishes-being-served/%s/%s", a.name, st), fmt.Sprintf("%s: 5 s after the message was handed to the session the handler loop had not finished serving it (emitted so far: %s)", desc, types(res.Outs)), replay)
 		return
 	}
 	res.Outs = answers(res.Outs)
